@@ -99,7 +99,7 @@ def battery_case():
                 ),
                 max_size=4,
             ),
-            "css": st.lists(st.tuples(st.sampled_from(["font_size", "backgroundColor", "margin_top", "zIndex", "color"]), st.sampled_from(["1px", "red", 3, None])).map(list), max_size=4, unique_by=lambda p: p[0]),
+            "css": st.lists(st.tuples(st.sampled_from(["font_size", "backgroundColor", "margin_top", "zIndex", "color"]), st.sampled_from(["1px", "red", 3, None, 1, 1.0, 0, 0.0, 2, 2.0])).map(list), max_size=4, unique_by=lambda p: p[0]),
         }
     )
 
@@ -164,11 +164,12 @@ def run_children(battery, seeds, tag):
 def body_replay(case, note):
     """replay of a saved process-level failure: one battery case under the recorded hash seeds"""
     seeds = case.get("hashseeds") or [case.get("hashseed", 0), 0, 1, 2, 3, 4, 5, 6]
-    outs = run_children([case["battery_case"]] * 3, list(seeds) + [7, 11, 13], "replay")
+    outs = run_children([case["battery_case"]] * 3, (list(seeds) + [7, 11])[:4], "replay")
     ref = outs[0][1]
     for hs, o in outs:
         r0 = o["results"]["0"]
         check(r0.get("doc") == r0.get("doc_again") and r0.get("page") == r0.get("page_again"), "rendering the same document object twice in one process gave different markup")
+        check(r0.get("arg_history_ok") is not False, "a document object rendered with other arguments before answers differently from a fresh one")
         check(not o["mismatches"], f"same case rendered twice in one process (PYTHONHASHSEED={hs}) gave different results")
         check(o["results"]["0"] == ref["results"]["0"], f"case differs between PYTHONHASHSEED={outs[0][0]} and {hs}", ref["results"]["0"], o["results"]["0"])
     note(True)
@@ -185,6 +186,9 @@ def run_processes(ctx):
     for hs, o in outs:
         for i in range(len(battery)):
             r = o["results"][str(i)]
+            if r.get("arg_history_ok") is False:
+                ctx.extra["case"] = {"battery_case": battery[i], "hashseed": hs, "what": "a document object rendered with other arguments before answers differently from a fresh one"}
+                raise Violation(f"case {i}: a document object that was rendered with other lib_prefix / include_version before renders differently from a fresh one")
             for a_, b_ in (("doc", "doc_again"), ("page", "page_again")):
                 if a_ in r and r[a_] != r.get(b_):
                     ctx.extra["case"] = {"battery_case": battery[i], "hashseed": hs, "what": f"{a_}: the same document object rendered twice"}
@@ -249,6 +253,9 @@ def twin(p, mode):
     return out
 
 
+_UNIQUE = [0]
+
+
 def names_case():
     return st.fixed_dictionaries({"p": st.one_of(payload(), payload(), big_payload()), "q": payload(), "same": st.booleans(), "confuse": st.sampled_from([None, None, "swap", "swap", "raw", "escaped"])})
 
@@ -268,6 +275,19 @@ def body_names(case, note):
     hp, hq = h.head_content(*[build(x) for x in p]), h.head_content(*[build(x) for x in q])
     check((hp.name == hq.name) == (rp == rq), "head_content names are equal iff the rendered payloads are equal - violated", (rp, hp.name), (rq, hq.name))
     check(hp.name == h.head_content(*[build(x) for x in p]).name, "head_content name is not a function of the content")
+    # content never seen before in this process: the payload objects of its first head_content() are changed afterwards;
+    # a later, independent head_content() of the same content must not be affected
+    _UNIQUE[0] += 1
+    fresh = p + [{"k": "tag", "name": "meta", "ws": True, "attrs": [["name", "u%d-%d" % (os.getpid(), _UNIQUE[0])]], "kids": [{"k": "text", "s": "k"}]}]
+    objs_f = [build(x) for x in fresh]
+    r_fresh = h.TagList(*[build(x) for x in fresh]).get_html_string()
+    first = h.head_content(*objs_f)
+    for o in objs_f:
+        if isinstance(o, h.Tag):
+            o.append("!changed-later!")
+    again_f = h.head_content(*[build(x) for x in fresh])
+    check(again_f.head.get_html_string() == r_fresh, "an independent head_content() of the same content is affected by an earlier payload that was changed afterwards", r_fresh, again_f.head.get_html_string())
+    check(first.name == again_f.name, "head_content name changed although the content at creation time was the same")
     doc = h.HTMLDocument(h.Tag("div", hp, h.Tag("span", hq)), h.head_content(*[build(x) for x in p])).render()
     heads = [d.head.get_html_string() for d in doc["dependencies"]]
     if rp == rq:
